@@ -40,8 +40,8 @@ import (
 var (
 	rxPunctuation      = regexp.MustCompile(`\s+([.?!,;])\s*(\S*)`)
 	rxTempNewline      = regexp.MustCompile(`\s*\|\\/\|\s*`)
-	rxDisplay          = regexp.MustCompile(`(?i)display:\s*([\w-]+)\s*(?:;|$)`)
-	rxVisibilityHidden = regexp.MustCompile(`(?i)visibility:\s*(:?hidden|collapse)`)
+	rxDisplay          = regexp.MustCompile(`(?i)display\s*:\s*([\w-]+)\s*(?:!\s*important\s*)?(?:;|$)`)
+	rxVisibilityHidden = regexp.MustCompile(`(?i)visibility\s*:\s*(:?hidden|collapse)`)
 	rxSrcsetURL        = regexp.MustCompile(`(?i)(\S+)(\s+[\d.]+[xw])?(\s*(?:,|$))`)
 
 	elementWithSizeAttr = map[string]struct{}{
@@ -512,7 +512,7 @@ func GetDisplayStyle(node *html.Node) string {
 	style := dom.GetAttribute(node, "style")
 	parts := rxDisplay.FindStringSubmatch(style)
 	if len(parts) >= 2 {
-		return parts[1]
+		return strings.ToLower(parts[1])
 	}
 
 	// Use default display
